@@ -290,6 +290,16 @@ def run_check(pid, tier, seed, replay=None):
             run.counts["tlc-generated-behaviours"] += len(hists)
             jobs.append((exec_ops(fcbin, hists, "tlc%d" % spe), spe))
 
+        # histories of real signed chains (harness/chain: competing branches, late blocks, skipped epoch-start
+        # slots, finality and prunes) fed to the fork choice the way a client does (runner/fcchain.py)
+        try:
+            import fcchain
+            real = fcchain.real_chain_traces(seed, tier, n=4 if tier == "quick" else None)
+            run.counts["real-chain-histories"] = len(real)
+            jobs += list(real)
+        except ImportError:
+            pass
+
     # exhaustive model checking of the abstract specification (design-level; never a verdict on the code)
     mc_holder = {}
     if not replay:
